@@ -115,9 +115,12 @@ def parse_place(s):
             elif c in ")]":
                 d -= 1
             elif c == "." and d == 0:
-                m = re.match(r"\.(\d+): ", inner[i:])
+                m = re.match(r"\.(\d+): (.*)$", inner[i:], re.S)
                 if m:
                     p = parse_place(inner[:i])
+                    if int(m.group(1)) == 0 and re.match(r"(nalgebra::)?(base::)?Matrix<f64, (nalgebra::)?U2, (nalgebra::)?U1", m.group(2)):
+                        # Point::coords: the executor stores a point as its two coordinates
+                        return Place(p.local, p.proj + (("field", "coords"),))
                     return Place(p.local, p.proj + (("field", int(m.group(1))),))
         raise ValueError("place form " + s)
     if s.startswith("*"):
